@@ -487,6 +487,13 @@ def build(plan):
     b = Built()
     b.plan = plan
     b.files = {fname(j) + '.ms': render(progs[j]) for j in range(nfiles)}
+    if not core_only:
+        # source files do not always start with code: blank lines, whitespace-only lines or a comment come first in some of
+        # them (positions in reports count from the first byte of the file)
+        import zlib
+        for j in range(nfiles):
+            lead = ["", "\n\n", "  \n\t\n\n", "# a comment line\n\n", "\n"][zlib.crc32(repr((sorted(plan.items(), key=str), j)).encode()) % 5]
+            b.files[fname(j) + '.ms'] = lead + b.files[fname(j) + '.ms']
     b.entry = 'main.ms'
     b.core = core_only
     b.tree = None
@@ -766,20 +773,40 @@ def run(ctx):
     # ---------------- everything else: real binary versus the specification
     base = ctx.mktemp()
 
+    import zlib
+
     def one(b, timeout=30):
         d = programs.materialize({"files": b.files}, base)
         rc, out, err = programs.run_bin(binary, ["run", b.entry, "-q"], d, timeout=timeout)
+        ex = None
+        if zlib.crc32(b.name.encode()) % 3 == 0 and rc != 124:
+            # the same program through the two-step route: compile, then execute the bytecode file.  The failure must be
+            # reported in the same way (exit status, report, trace, nothing printed after it)
+            c = programs.run_bin(binary, ["compile", b.entry, "--quick"], d, timeout=timeout)
+            if c[0] == 0:
+                ex = programs.run_bin(binary, ["execute", b.entry[:-3] + ".mmm"], d, timeout=timeout)
         import shutil
         shutil.rmtree(d, ignore_errors=True)
-        return b, rc, out, err
+        return b, rc, out, err, ex
     slow = slow_core
-    for b, rc, out, err in programs.pmap(one, other_b):
+    n_exec = 0
+    for b, rc, out, err, ex in programs.pmap(one, other_b):
         if rc == 124:
             slow.append(b)                # a loaded machine, or a program that hangs: decided below, one at a time
         else:
             judge(b, rc, out, err)
+            if ex is not None and ex[0] != 124:
+                n_exec += 1
+                for cls, msg in check_spec(b, ex[0], ex[1], ex[2]):
+                    if cls == 'generator:rejected' or cls == OVERFLOW or cls.endswith(':panic') and is_overflow(b.plan['kind']):
+                        continue
+                    ctx.report("execute:" + cls, "%s through compile + execute: %s" % (b.name, msg),
+                               {"files": b.files, "entry": b.entry, "plan": b.plan, "observed_exit": ex[0], "observed_stdout": ex[1][-600:],
+                                "observed_stderr": re.sub(r"\(\d+\) panicked", "panicked", ex[2][-1500:]),
+                                "how": "mscript compile main.ms --quick; mscript execute main.mmm"})
+    ctx.cov["programs_also_run_through_compile_and_execute"] = n_exec
     for b in slow[:20]:
-        judge(*one(b, timeout=300))
+        judge(*one(b, timeout=300)[:4])
 
     # ---------------- native stack exhaustion (outside every model): observed
     def deep(n):
